@@ -34,7 +34,7 @@ CONSTANTS
   Stim,               \* subset of {"demote", "ho1", "ho1x", "ho9"}
   StimAnywhere,       \* FALSE: requests only while the lease is set (elsewhere they are refused / have no effect)
   Focus,              \* "all" | "renew" (answers before the tenure restricted to the direct path)
-  AllowMute,          \* TRUE: the target's stream handler may fail to take the lease id within 5 s
+  Mute,               \* does the handoff target's stream handler take the lease id within 5 s: "never" fails to | "always" fails to | "either"
   CheckAfterAcquire,  \* FALSE = code as written; TRUE = candidate repair (compare ids again once the lease is held)
   Mut,                \* "none", or a guard dropped on purpose (relevance configurations)
   Emit                \* "none" | "state": one TRACE line per distinct state (after VIEW) | "edge": one per explored edge
@@ -60,7 +60,8 @@ Init0 == [pc |-> "loop", calls |-> 0, nstim |-> 0,
           nlease |-> 0,
           closeOnExit |-> TRUE, demoted |-> FALSE,
           demoteReq |-> FALSE,   \* the demoteCh captured by this tenure has been closed
-          hoReq |-> "none",      \* node id waiting in lease.HandoffCh() (capacity 1): none | N1 | N1gone (N1 disconnected since)
+          hoReq |-> "none",      \* node id waiting in lease.HandoffCh() (capacity 1): none | N1
+          n1conn |-> FALSE,      \* peer N1 is subscribed to this node's stream (streams exist only during a tenure)
           hoCur |-> "none",      \* node id processHandoff is working on
           finalRenew |-> FALSE,  \* processHandoff's Renew succeeded for the request in progress
           frames |-> {},         \* peers whose stream was given the lease id
@@ -95,8 +96,12 @@ Call(c, a, st, t) ==
   /\ s' = [t EXCEPT !.calls = s.calls + 1,
                     !.nstim = IF st = "none" THEN s.nstim ELSE s.nstim + 1,
                     !.demoteReq = t.demoteReq \/ (st = "demote" /\ s.prim),
-                    !.hoReq = IF StimRes(st) = "ok" /\ st = "ho1" THEN "N1"
-                              ELSE IF StimRes(st) = "ok" /\ st = "ho1x" THEN "N1gone" ELSE t.hoReq]
+                    !.hoReq = IF StimRes(st) = "ok" /\ st \in {"ho1", "ho1x"} THEN "N1" ELSE t.hoReq,
+                    \* the requester first makes sure N1 is connected (possible only during a tenure);
+                    \* "ho1x": N1 disconnects once its request has been accepted
+                    !.n1conn = IF st \in {"ho1", "ho1x"}
+                               THEN (IF st = "ho1x" /\ StimRes(st) = "ok" THEN FALSE ELSE t.n1conn \/ s.prim)
+                               ELSE t.n1conn]
   /\ hist' = Append(hist, [k |-> "call", c |-> c, a |-> a, s |-> st, sr |-> StimRes(st), o |-> Obs])
 
 Internal(t) == s' = t /\ UNCHANGED hist
@@ -213,7 +218,7 @@ DemoteExit == s.pc = "primary" /\ s.demoteReq /\ Internal([s EXCEPT !.demoted = 
 \* store.go:1002 nodeID := <-lease.HandoffCh(); processHandoff: is the subscriber still connected?
 HandoffRecv ==
   /\ s.pc = "primary" /\ s.hoReq # "none"
-  /\ Internal(IF s.hoReq = "N1gone" THEN [s EXCEPT !.hoReq = "none"]
+  /\ Internal(IF ~s.n1conn THEN [s EXCEPT !.hoReq = "none"]
               ELSE IF Mut = "handoffWithoutRenew" THEN [s EXCEPT !.pc = "ho_send", !.hoCur = s.hoReq, !.hoReq = "none", !.finalRenew = FALSE]
               ELSE [s EXCEPT !.pc = "ho_renew", !.hoCur = s.hoReq, !.hoReq = "none", !.finalRenew = FALSE])
 
@@ -226,9 +231,11 @@ HoRenew(a, st, e) ==
           ELSE IF a = "expired" THEN NoteFail([u EXCEPT !.gone = TRUE, !.hoCur = "none", !.pc = "primary"], e)
           ELSE NoteFail([u EXCEPT !.hoCur = "none", !.pc = "primary"], e))
 
-\* store.go:1358 sub.HandoffCh() <- lease.ID() within 5 s
+\* store.go:1358 sub.HandoffCh() <- lease.ID() within 5 s (nobody takes it if the target's stream
+\* handler is stuck, or has gone since processHandoff looked the subscriber up)
 HoSend(delivered) ==
-  /\ s.pc = "ho_send" /\ (~delivered => AllowMute)
+  /\ s.pc = "ho_send"
+  /\ (delivered => (s.n1conn /\ Mute # "always")) /\ (~delivered => (~s.n1conn \/ Mute # "never"))
   /\ Internal(IF delivered
               THEN [s EXCEPT !.frames = @ \cup {s.hoCur}, !.hoCur = "none", !.closeOnExit = FALSE, !.pc = "exit_clear",
                              !.flags = @ \cup (IF s.finalRenew THEN {} ELSE {"frame-without-final-renew"})]
@@ -237,7 +244,7 @@ HoSend(delivered) ==
 \* store.go:959 deferred setLease(nil) (runs before the deferred Close)
 ClearLease ==
   /\ s.pc = "exit_clear"
-  /\ LET u == IF Mut = "noClearLease" THEN s ELSE [s EXCEPT !.prim = FALSE, !.done = TRUE] IN
+  /\ LET u == IF Mut = "noClearLease" THEN s ELSE [s EXCEPT !.prim = FALSE, !.done = TRUE, !.n1conn = FALSE] IN
      Internal(IF s.closeOnExit \/ Mut = "closeAfterHandoff" THEN [u EXCEPT !.pc = "exit_close"]
               ELSE IF Mut = "neverClose" THEN [u EXCEPT !.pc = "loop"]
               ELSE [u EXCEPT !.pc = "loop", !.lease = "handed"])
